@@ -346,6 +346,7 @@ def pem_concrete(cname):
 
 
 def jobs(tier, seed):
+    _pre = [Job("inst-validate", "harness.egcommon:validate_instrumented_keys")]
     js = []
     nat = loader.load_native()
     for c in nat.curves.curves:
@@ -357,7 +358,7 @@ def jobs(tier, seed):
                           cname=c.name, variant=variant))
         for enc in ("uncompressed", "compressed", "hybrid"):
             js.append(Job("pem/%s/%s" % (c.name, enc), "harness.c09:pem", cname=c.name, enc=enc))
-    return js
+    return _pre + js
 
 
 # -- replay: concrete instance with a real key -----------------------------------------------
